@@ -131,9 +131,9 @@ Lemma convert_keys_ok ks : forall c c',
 Proof.
   induction ks as [|k0 r IH]; intros c c' H.
   - simpl in H. injection H as <-. split; [reflexivity|].
-    intro k. unfold conv_point. destruct (dget c k) as [[v|t|o]|]; reflexivity.
+    intro k. unfold conv_point. destruct (dget c k) as [[v|t|ob]|]; reflexivity.
   - cbn [convert_keys] in H.
-    destruct (dget c k0) as [[v|t|o]|] eqn:G.
+    destruct (dget c k0) as [[v|t|ob]|] eqn:G.
     + destruct (IH _ _ H) as [K P]. split; [exact K|]. intro k. specialize (P k).
       unfold conv_point in *. cbn [str_mem].
       destruct (str_eqb k0 k) eqn:E; [|exact P].
@@ -163,7 +163,7 @@ Lemma convert_keys_err ks : forall c c' e,
 Proof.
   induction ks as [|k0 r IH]; intros c c' e H; [discriminate|].
   cbn [convert_keys] in H.
-  destruct (dget c k0) as [[v|t|o]|] eqn:G.
+  destruct (dget c k0) as [[v|t|ob]|] eqn:G.
   - destruct (IH _ _ _ H) as [E (k & t & I & D & N)]. split; [exact E|]. exists k, t. simpl. tauto.
   - destruct (numericdate t) as [n|e'] eqn:N.
     + destruct (IH _ _ _ H) as [E (k & t' & I & D & N')]. split; [exact E|]. exists k, t'. simpl. tauto.
@@ -248,7 +248,7 @@ Lemma convert_keys_claims_ok ks : forall c c' o,
 Proof.
   induction ks as [|k0 r IH]; intros c c' o O H.
   - simpl in H. injection H as <- _. exact O.
-  - cbn [convert_keys] in H. destruct (dget c k0) as [[v|t|o]|] eqn:G.
+  - cbn [convert_keys] in H. destruct (dget c k0) as [[v|t|ob]|] eqn:G.
     + exact (IH _ _ _ O H).
     + destruct (numericdate t) as [n|e].
       * apply (IH _ _ _ (claims_ok_dset c k0 n O ltac:(unfold dmem; rewrite G; reflexivity)) H).
